@@ -2,10 +2,12 @@ import Driver.Util
 import Driver.Store
 import Driver.Match
 import Driver.ITS
+import Driver.SubgraphSearch
+import Driver.GraphMatcherEngine
 open Lean
 
 /-- All command handlers; the first one that knows the command answers. -/
-def handlers : List Driver.Handler := [Driver.Store.handle, Driver.Match.handle, Driver.ITS.handle]
+def handlers : List Driver.Handler := [Driver.Store.handle, Driver.Match.handle, Driver.ITS.handle, Driver.SubgraphSearch.handle, Driver.GME.handle]
 
 def dispatch (line : String) : Json :=
   match Json.parse line with
